@@ -51,6 +51,22 @@ AddrZeroInst ==
      I("addr0:noargs", "E", Bin("E.Equal", va, Call(Ty("address", 0), <<>>))),
      I("addr0:lt", "E", Bin("E.Less", va, Zero))}
 
+\* operand matrix of the two symmetric comparison detectors: the pattern operand on either side, every class of
+\* other operand on the other side (a verdict on one operand must not be undone by the check of the other)
+EqNeKinds == {<<"eq", "E.Equal">>, <<"ne", "E.NotEqual">>}
+BoolLits == {<<"true", BoolLit(TRUE)>>, <<"false", BoolLit(FALSE)>>}
+BoolOthers == {<<"var", va>>, <<"paren-and", Paren(Bin("E.And", va, vb))>>, <<"call", CallNamed("fn", <<va>>)>>,
+               <<"paren-lit", Paren(BoolLit(TRUE))>>, <<"not", Un("E.Not", va)>>, <<"index", Index(arr, Num("1"))>>}
+BoolEqMatrix ==
+    {I("booleq:m:" \o k[1] \o ":" \o xy[1][1] \o ":" \o xy[2][1], "E", Bin(k[2], xy[1][2], xy[2][2]))
+       : k \in EqNeKinds, xy \in (BoolLits \X BoolOthers) \cup (BoolOthers \X BoolLits) \cup (BoolLits \X BoolLits)}
+AddrZeros == {<<"zero", Zero>>}
+AddrOthers == {<<"var", va>>, <<"paren-var", Paren(va)>>, <<"call", CallNamed("fn", <<va>>)>>, <<"paren-zero", Paren(Zero)>>,
+               <<"one", AddrOf(Num("1"))>>, <<"member", Member(va, "owner")>>, <<"addr-of-var", AddrOf(vb)>>}
+AddrZeroMatrix ==
+    {I("addr0:m:" \o k[1] \o ":" \o xy[1][1] \o ":" \o xy[2][1], "E", Bin(k[2], xy[1][2], xy[2][2]))
+       : k \in EqNeKinds, xy \in (AddrZeros \X AddrOthers) \cup (AddrOthers \X AddrZeros) \cup (AddrZeros \X AddrZeros)}
+
 BoolEqInst ==
     {I("booleq:true", "E", Bin("E.Equal", va, BoolLit(TRUE))), I("booleq:false-left", "E", Bin("E.NotEqual", BoolLit(FALSE), va)),
      I("booleq:plain", "E", Bin("E.Equal", va, vb)), I("booleq:and", "E", Bin("E.And", va, BoolLit(TRUE))),
@@ -65,6 +81,9 @@ ArrayUpdInst ==
           I("arrupd:var-index", "E", Bin("E.Assign", Index(arr, va), Bin("E.Add", Index(arr, va), Num("1")))),
           I("arrupd:right-operand", "E", Bin("E.Assign", Index(arr, Num("1")), Bin("E.Add", va, Index(arr, Num("1"))))),
           I("arrupd:compound", "E", Bin("E.AssignAdd", Index(arr, Num("1")), va))}
+    \* operators that have no compound assignment
+    \cup {I("arrupd:no-compound:" \o op, "E", Bin("E.Assign", Index(arr, Num("1")), Bin(op, Index(arr, Num("1")), va)))
+           : op \in {"E.Or", "E.And", "E.Power", "E.Less", "E.Equal"}}
 
 ForStmt(init, cond, next, body) == N("S.For", A0, <<init, cond, next, body>>)
 Len_(e) == Member(e, "length")
@@ -72,6 +91,11 @@ CacheLenInst ==
     {I("cachelen:cond", "S", ForStmt(<<ExprStmt(Bin("E.Assign", va, Num("0")))>>, <<Bin("E.Less", va, Len_(arr))>>, <<ExprStmt(Un("E.PreIncrement", va))>>, <<B0>>)),
      I("cachelen:cond-nested", "S", ForStmt(<<>>, <<Bin("E.And", Bin("E.Less", va, Bin("E.Subtract", Len_(Member(vb, "items")), Num("1"))), vc)>>, <<>>, <<B0>>)),
      I("cachelen:body-only", "S", ForStmt(<<>>, <<Bin("E.Less", va, vb)>>, <<>>, <<Block(<<ExprStmt(Bin("E.Assign", vc, Len_(arr)))>>)>>)),
+     I("cachelen:init-only", "S", ForStmt(<<ExprStmt(Bin("E.Assign", va, Len_(arr)))>>, <<Bin("E.More", va, Num("0"))>>, <<ExprStmt(Un("E.PreDecrement", va))>>, <<B0>>)),
+     I("cachelen:init-and-cond", "S", ForStmt(<<ExprStmt(Bin("E.Assign", va, Len_(Var("brr"))))>>, <<Bin("E.Less", va, Len_(arr))>>, <<ExprStmt(Un("E.PreIncrement", va))>>, <<B0>>)),
+     I("cachelen:update-only", "S", ForStmt(<<>>, <<Bin("E.Less", va, vb)>>, <<ExprStmt(Bin("E.AssignAdd", va, Len_(arr)))>>, <<B0>>)),
+     I("cachelen:cond-left", "S", ForStmt(<<>>, <<Bin("E.More", Len_(arr), va)>>, <<>>, <<B0>>)),
+     I("cachelen:cond-in-nested-for", "S", ForStmt(<<>>, <<Bin("E.Less", va, vb)>>, <<>>, <<Block(<<ForStmt(<<>>, <<Bin("E.LessEqual", vc, Len_(arr))>>, <<>>, <<B0>>)>>)>>)),
      I("cachelen:while", "S", N("S.While", A0, <<<<Bin("E.Less", va, Len_(arr))>>, <<B0>>>>)),
      I("cachelen:outside", "S", ExprStmt(Bin("E.Assign", vc, Len_(arr)))),
      I("cachelen:other-member", "S", ForStmt(<<>>, <<Bin("E.Less", va, Member(arr, "length_"))>>, <<>>, <<B0>>))}
@@ -94,7 +118,18 @@ RequireInst ==
      I("require:or", "E", CallNamed("require", <<Bin("E.Or", va, vb)>>)),
      I("require:member", "E", Call(Member(va, "require"), <<Bin("E.And", va, vb)>>))}
 
+\* operand classes for the detectors that flag an operator whatever its operands are
+OperandClasses == {<<"var", va>>, <<"num", Num("100")>>, <<"hex", Hex("0xff")>>, <<"paren-num", Paren(Num("7"))>>,
+                   <<"call", CallNamed("fn", <<vb>>)>>, <<"index", Index(arr, vb)>>, <<"member", Member(vb, "x")>>}
+OperandPairs == {xy \in OperandClasses \X OperandClasses : xy[1][1] = "var" \/ xy[2][1] = "var"}
+                \cup {<<<<"num", Num("100")>>, <<"num2", Num("3")>>>>, <<<<"call", CallNamed("fn", <<vb>>)>>, <<"num", Num("100")>>>>}
+CmpExtra == {I("cmp:two", "E", Bin("E.And", Bin("E.MoreEqual", va, vb), Bin("E.LessEqual", vc, Num("10")))),
+                 I("cmp:not", "E", Un("E.Not", Paren(Bin("E.LessEqual", va, vb)))),
+                 I("cmp:ternary", "E", N("E.Ternary", A0, <<<<Bin("E.MoreEqual", va, vb)>>, <<va>>, <<vb>>>>))}
 CmpInst == {I("cmp:" \o k, "E", Bin(k, va, vb)) : k \in {"E.MoreEqual", "E.LessEqual", "E.More", "E.Less", "E.Equal"}}
+           \cup CmpExtra
+CmpMatrix == {I("cmp:m:" \o k \o ":" \o xy[1][1] \o ":" \o xy[2][1], "E", Bin(k, xy[1][2], xy[2][2]))
+                  : k \in {"E.MoreEqual", "E.LessEqual", "E.More"}, xy \in OperandPairs}
 
 ShiftInst ==
     {I("shift:mul2", "E", Bin("E.Multiply", va, Num("2"))), I("shift:4mul", "E", Bin("E.Multiply", Num("4"), va)),
@@ -119,14 +154,33 @@ KeccakInst ==
      I("keccak:member", "E", Call(Member(va, "keccak256"), <<vb>>)), I("keccak:noargs", "E", CallNamed("keccak256", <<>>)),
      I("keccak:nested", "E", CallNamed("keccak256", <<Call(Member(Var("abi"), "encode"), <<va, CallNamed("keccak256", <<vb>>)>>)>>))}
 
+\* arithmetic nested in arithmetic: every operation is an occurrence of its own
+MathNested ==
+         {I("math:nested:a+b*c", "E", Bin("E.Add", va, Bin("E.Multiply", vb, vc))),
+          I("math:nested:(c-a)/b*a", "E", Bin("E.Multiply", Bin("E.Divide", Paren(Bin("E.Subtract", vc, va)), vb), va)),
+          I("math:nested:call-arg", "E", Bin("E.Multiply", va, CallNamed("fn", <<Bin("E.Divide", Paren(Bin("E.Subtract", vc, va)), vb)>>))),
+          I("math:nested:index", "E", Bin("E.Subtract", Index(arr, Bin("E.Add", va, Num("1"))), vb))}
 MathInst ==
     {I("math:" \o k, "E", Bin(k, va, vb)) : k \in {"E.Add", "E.Subtract", "E.Multiply", "E.Divide", "E.Modulo", "E.Power", "E.AssignAdd", "E.ShiftLeft"}}
     \cup {I("math:neg", "E", Un("E.UnaryMinus", va))}
+    \cup MathNested
+MathMatrix ==
+    {I("math:m:" \o k \o ":" \o xy[1][1] \o ":" \o xy[2][1], "E", Bin(k, xy[1][2], xy[2][2]))
+           : k \in {"E.Add", "E.Subtract", "E.Multiply", "E.Divide"}, xy \in OperandPairs}
 
 \* C07 ----------------------------------------------------------------------
 Erc20Inst ==
     {I("erc20:" \o m, "E", Call(Member(Var("token"), m), <<va, vb>>)) : m \in {"transfer", "transferFrom", "approve", "safeTransfer", "transfered", "Transfer", "send"}}
     \cup {I("erc20:bare-member", "E", Member(Var("token"), "transfer"))}
+    \* the member access is the pattern, however it is called: call options, named arguments, a cast or indexed receiver
+    \cup {I("erc20:call-options:" \o m, "E",
+             Call(N("E.FunctionCallBlock", A0, <<<<Member(Var("token"), m)>>, <<N("S.Args", [names |-> <<"gas">>], <<<<Num("50000")>>>>)>>>>), <<va, vb>>))
+           : m \in {"transfer", "approve"}}
+    \cup {I("erc20:named-args:" \o m, "E", N("E.NamedFunctionCall", [names |-> <<"to", "amount">>], <<<<Member(Var("token"), m)>>, <<va, vb>>>>))
+           : m \in {"transfer", "transferFrom"}}
+    \cup {I("erc20:cast-receiver", "E", Call(Member(CallNamed("IERC20", <<va>>), "transferFrom"), <<va, vb, vc>>)),
+          I("erc20:index-receiver", "E", Call(Member(Index(arr, Num("0")), "approve"), <<va, vb>>)),
+          I("erc20:selector", "E", Member(Member(Var("token"), "transfer"), "selector"))}
 
 DivMulInst ==
     {I("divmul:a/b*c", "E", Bin("E.Multiply", Bin("E.Divide", va, vb), vc)),
